@@ -13,6 +13,10 @@ import (
 	"golang.org/x/tools/go/ssa"
 )
 
+var noSleep = os.Getenv("VERIF_NOSLEEP") != "" // validation aid: full exploration without the sleep-set reduction
+
+var schedLog = os.Getenv("VERIF_SCHEDLOG") != ""
+
 type opKind int
 
 const (
@@ -42,6 +46,7 @@ type pendingOp struct {
 	obj        interface{}
 	desc       string
 	seq        int
+	readOnly   bool // an atomic load: commutes with other loads of the same cell
 }
 
 type goroutine struct {
@@ -338,16 +343,80 @@ func opObjs(op *pendingOp) []interface{} {
 	return []interface{}{op.obj}
 }
 
-func independent(a, b *pendingOp) bool {
-	oa, ob := opObjs(a), opObjs(b)
+// independent: the two pending operations commute from the current state. Operations on
+// different objects always do; on a shared object, two atomic loads do, and so do two
+// receive-only accesses to a channel that holds no data and has no parked sender (both observe
+// "closed", or neither can complete on it now) - the usual read/read refinement.
+func (s *Sched) independent(a, b *pendingOp) bool {
+	oa, ob := s.effObjs(a), s.effObjs(b)
 	if oa == nil || ob == nil {
 		return false
 	}
 	for _, x := range oa {
 		for _, y := range ob {
-			if x == y {
-				return false
+			if x != y {
+				continue
 			}
+			if a.readOnly && b.readOnly {
+				continue
+			}
+			if ch, ok := x.(*channel); ok && ch.symCount == nil && len(ch.buf) == 0 && recvOnly(a, ch) && recvOnly(b, ch) {
+				if p, _ := s.parkedPeer(nil, ch, true); ch.closed || p == nil {
+					continue
+				}
+			}
+			return false
+		}
+	}
+	return true
+}
+
+// effObjs: the objects op touches when executed now. A send or receive that rendezvous with a
+// parked select of another goroutine also decides that select, i.e. touches every channel the
+// parked select waits on (two senders on different channels racing for one parked select are
+// dependent).
+func (s *Sched) effObjs(op *pendingOp) []interface{} {
+	out := opObjs(op)
+	if out == nil || op.kind != opSelect || op.completed {
+		return out
+	}
+	for i := range op.cases {
+		c := &op.cases[i]
+		if c.ch == nil {
+			continue
+		}
+		for _, g := range s.gs {
+			p := g.pending
+			if g == op.g || g.done || p == nil || p.completed || p.kind != opSelect {
+				continue
+			}
+			match := false
+			for j := range p.cases {
+				if p.cases[j].ch == c.ch && p.cases[j].send != c.send {
+					match = true
+					break
+				}
+			}
+			if match {
+				for j := range p.cases {
+					if p.cases[j].ch != nil {
+						out = append(out, p.cases[j].ch)
+					}
+				}
+			}
+		}
+	}
+	return out
+}
+
+// recvOnly: op is a select (or plain receive) whose every case on ch is a receive.
+func recvOnly(op *pendingOp, ch *channel) bool {
+	if op.kind != opSelect {
+		return false
+	}
+	for i := range op.cases {
+		if op.cases[i].ch == ch && op.cases[i].send {
+			return false
 		}
 	}
 	return true
@@ -380,12 +449,12 @@ func (s *Sched) pick() *goroutine {
 			s.deadlock()
 		}
 		bound := -1
-		if s.r.entry != nil && s.r.entry.Preempt > 0 {
-			bound = s.r.entry.Preempt
+		if s.r.entry != nil {
+			bound = s.r.w.d.preemptBound(s.r.entry)
 		}
 		var cand []*goroutine
 		for _, g := range en {
-			if bound >= 0 || !s.asleep(g) { // sleep sets are not combined with preemption bounding
+			if bound >= 0 || noSleep || !s.asleep(g) { // sleep sets are not combined with preemption bounding
 				cand = append(cand, g)
 			}
 		}
@@ -413,6 +482,21 @@ func (s *Sched) pick() *goroutine {
 			panic(runAbort{"pruned"})
 		}
 		c := s.r.choose('s', n)
+		if schedLog {
+			msg := fmt.Sprintf("pick #%d:", len(s.r.trace))
+			for i, g := range cand {
+				mark := " "
+				if i == c {
+					mark = "*"
+				}
+				msg += fmt.Sprintf(" %s%d[%s]", mark, g.id, g.pending.desc)
+			}
+			msg += " | sleep:"
+			for _, e := range s.sleep {
+				msg += fmt.Sprintf(" %d[%s]", e.g.id, e.op.desc)
+			}
+			fmt.Fprintln(os.Stderr, msg)
+		}
 		if curEnabled && (c >= len(cand) || cand[c] != s.cur) {
 			s.preemptions++
 		}
@@ -420,12 +504,12 @@ func (s *Sched) pick() *goroutine {
 			chosen := cand[c]
 			var ns []sleepEntry
 			for _, e := range s.sleep {
-				if e.g != chosen && !e.g.done && e.g.pending == e.op && independent(e.op, chosen.pending) {
+				if e.g != chosen && !e.g.done && e.g.pending == e.op && s.independent(e.op, chosen.pending) {
 					ns = append(ns, e)
 				}
 			}
 			for _, g := range cand[:c] {
-				if independent(g.pending, chosen.pending) {
+				if s.independent(g.pending, chosen.pending) {
 					ns = append(ns, sleepEntry{g, g.pending})
 				}
 			}
@@ -473,6 +557,7 @@ func (s *Sched) yield(g *goroutine, op *pendingOp) {
 	s.seq++
 	op.seq = s.seq
 	g.pending = op
+	s.wakePeers(op)
 	next := s.pick()
 	if next != g {
 		s.switches++
@@ -481,6 +566,24 @@ func (s *Sched) yield(g *goroutine, op *pendingOp) {
 		s.park(g)
 	}
 	g.pending = nil
+}
+
+// wakePeers: publishing a channel operation changes what a parked select of another goroutine
+// can do (a new rendezvous partner makes another case ready) although no operation on that
+// channel has been executed yet. A sleeping select with a case matching the new operation is
+// therefore a different transition from the one that was put to sleep: it is woken.
+func (s *Sched) wakePeers(op *pendingOp) {
+	if op.kind != opSelect || len(s.sleep) == 0 {
+		return
+	}
+	var ns []sleepEntry
+	for _, e := range s.sleep {
+		if e.g != op.g && e.op.kind == opSelect && !e.op.completed && s.peers(e.op, op) {
+			continue
+		}
+		ns = append(ns, e)
+	}
+	s.sleep = ns
 }
 
 // handoff passes the baton on after g has finished.
@@ -523,6 +626,11 @@ func (c *channel) length() int {
 func (s *Sched) parkedPeer(self *goroutine, ch *channel, send bool) (*pendingOp, int) {
 	var best *pendingOp
 	bi := -1
+	if ch.closed && send {
+		// close() wakes every parked sender with a panic: a receiver arriving afterwards never
+		// rendezvous with one of them
+		return nil, -1
+	}
 	for _, g := range s.gs {
 		if g == self || g.done || g.pending == nil || g.pending.completed || g.pending.kind != opSelect {
 			continue
@@ -685,6 +793,9 @@ func (s *Sched) doSelect(fr *frame, instr *ssa.Select) value {
 		}
 		if len(ready) > 0 {
 			chosen = ready[s.r.choose('c', len(ready))]
+			if schedLog {
+				fmt.Fprintf(os.Stderr, "  select by g%d: ready cases %v chosen %d\n", fr.g.id, ready, chosen)
+			}
 			c := &op.cases[chosen]
 			if c.send {
 				s.doSend(fr.g, c.ch, c.val)
